@@ -12,10 +12,15 @@ mod fmt;
 mod c05;
 mod c07;
 mod c08;
+mod c20;
+#[cfg(feature = "kytea")]
+mod c17;
 #[cfg(feature = "train")]
 mod c10;
 #[cfg(feature = "train")]
 mod c09;
+#[cfg(feature = "train")]
+mod c12;
 mod c15;
 mod c19;
 mod c16;
@@ -44,9 +49,19 @@ fn main() {
         #[cfg(feature = "train")]
         ("c09", "replay") | ("c11", "replay") => c09::replay(&args[3]),
         #[cfg(feature = "train")]
+        ("c12", "search") => c12::search(),
+        #[cfg(feature = "train")]
+        ("c12", "replay") => c12::replay(&args[3]),
+        #[cfg(feature = "train")]
         ("c10", "search") => c10::search(),
         #[cfg(feature = "train")]
         ("c10", "replay") => c10::replay(&args[3]),
+        #[cfg(feature = "kytea")]
+        ("c17", "search") => c17::search(),
+        #[cfg(feature = "kytea")]
+        ("c17", "replay") => c17::replay(&args[3]),
+        ("c20", "search") => c20::search(),
+        ("c20", "replay") => c20::replay(&args[3]),
         ("c16", "search") => c16::search(),
         ("c16", "replay") => c16::replay(&args[3]),
         ("c19", "search") => c19::search(),
